@@ -15,12 +15,22 @@ checks = {
    text='Concurrent multi-client histories (versions v3/v4/v5/DSE, none/lz4/snappy) of USE variants and data requests; every data reply echoes keyspace/version/compression of the backend connection it ran on, compared with the client model in send order.', ref='2/C07'),
  'C08': dict(cat='exploration', tech='runtime monitoring: history oracle over merged client/backend logs (UNPREPARED never reaches the client; re-PREPARE text, acceptability and fail-over)',
    text='All subsets of forgetful hosts for 2-3 hosts x compression, batch children, v3 clients, hosts added after start-up, cross-compression/cross-version prepare/execute, failing re-prepares.', ref='2/C08'),
+ 'C09': dict(cat='exploration', tech='runtime monitoring: expected decision computed by construction from tuple coordinates; backend-log oracle for end-to-end routing',
+   text='Exhaustive product of (current keyspace, kind, qualifier, table, selectors, trailing clause) = 316 800 tuples against IsQueryHandled in both tiers; PRNG sample end to end as QUERY and PREPARE+EXECUTE on a live proxy: the token reaches a backend iff not expected handled, and no system.local/peers read appears in any non-control backend log.', ref='2/C09'),
+ 'C10': dict(cat='exploration', tech='runtime monitoring: reference model of the virtual tables computed from the configuration; cells decoded with the reference datacodec; cross-instance comparison',
+   text='Generated peer lists (0-16 IPv4/IPv6, self in/out, DC/tokens present or not, DSE or not) x 30 selector lists as QUERY and PREPARE+EXECUTE on v3 and v4; one real Proxy per list entry for mutual consistency; restart and cross-process host-id stability.', ref='2/C10'),
+ 'C13': dict(cat='exploration', tech='runtime monitoring: per-stream reply counting, independently computed version predicate, backend-log oracle for forwarding',
+   text='All known version bytes x opcodes x configured max versions; all 250 unknown version bytes; STARTUP option maps; all orders of OPTIONS/STARTUP/REGISTER/QUERY up to length 4, awaited and pipelined.', ref='2/C13'),
  'C14': dict(cat='exploration', tech='runtime monitoring: exactly-once counting of uniquely identified events over recorded client frames, sentinel-event logical barrier',
    text='Histories of connect/register(subsets)/disconnect with bursts of schema, topology and status events, concurrent register/disconnect during bursts, control-connection failover between bursts and two proxies on one backend; per (client, event id) delivery counts are compared with must/may/never target sets.', ref='2/C14'),
  'C15': dict(cat='exploration', tech='runtime monitoring: set-model oracle over exhaustively enumerated event histories; porcupine linearizability check of recorded concurrent histories',
    text='All well-formed bootstrap/add/remove histories over <=5 hosts up to length 7 (quick) / 9 (thorough) with fresh, held and partially consumed plans; counter-wrap via the tag-guarded preset and, in thorough, 2^32+10 real NewQueryPlan calls; concurrent histories checked with porcupine against a 15-line model.', ref='2/C15'),
  'C16': dict(cat='fault_enumeration', tech='runtime monitoring: backend-side observation of refresh/reconnect events, recording ReconnectPolicy, bounds oracle on the backoff calculator, outage/readiness sampled at known states',
    text='Topology sequences (add/remove/restart, failed USE earlier) with routing checked after each observable refresh; kill/mute faults on pooled and control connections, single and simultaneous; backoff calculator grid; OutageDuration() and /readiness (through proxy.Run) at states the harness knows.', ref='2/C16'),
+ 'C18': dict(cat='exploration', tech='Go race detector (-race build, halt_on_error=0) over the concurrent scenario families; reports deduplicated by top-most repository frames',
+   text='Nine concurrent families (C01 storm/mass death/ordered deaths, C02 reorder/re-prepare, C07 concurrent USE, C08 re-prepare/late host, C14 bursts/failover, C16 topology/heal) x 2 (quick) / 10 (thorough) seeds on all cores; hook-event counts show the contended paths were reached.', ref='2/C18'),
+ 'C20': dict(cat='exploration', tech='runtime monitoring of the real binary as a subprocess (and proxy.Run in-process): observed STARTUP version byte, accepted version set, consistency seen at the backend, exit status',
+   text='Every documented spelling x letter case of protocol-version / max-protocol-version and of every consistency name (flag, env, YAML), all 5x5 (version, max) pairs, and the invalid-configuration families with valid neighbours: an invalid configuration must exit non-zero and never reach the running state.', ref='2/C20'),
  'C19': dict(cat='exploration', tech='runtime monitoring: harness TLS servers logging SNI, client certificate, handshake result and application bytes; accept/reject decided by construction of the chain',
    text='Real astra package end to end (bundle zip, metadata HTTPS, node connections through ConnectClient/Handshake) against 9 chain kinds x generated names/ids x TLS 1.2/1.3.', ref='2/C19'),
 }
@@ -32,7 +42,7 @@ m = {
   "guard": "verif",
   "enable": "go build -tags verif (bin/check builds /verif/harness, whose go.mod replaces github.com/datastax/cql-proxy with /repo, so /repo's working tree is recompiled with the hooks on)",
   "baseline_off_cmd": "cd /repo && GOFLAGS=-mod=mod GOPROXY=off go test -json -vet=off -count=1 -timeout 25m ./...",
-  "source_commits": ["bcdd8c1", "233dc92"],
+  "source_commits": ["bcdd8c1", "233dc92", "a4a9b03"],
   "add_only": True,
  },
  "engines": [{"name": "verif", "path": "harness/cmd/verif", "serves_properties": sorted(checks), "kind_free_text": "Go harness: supervisor + worker child processes running the real proxy in-process (build tag verif) or as a subprocess against a scriptable fake Cassandra; offline checkers over recorded event histories"}],
